@@ -12,6 +12,7 @@ import (
 	"context"
 	"crypto/ecdsa"
 	"crypto/rsa"
+	"crypto/sha256"
 	"crypto/x509"
 	"encoding/base64"
 	"encoding/hex"
@@ -663,11 +664,19 @@ func hostileChildMain() {
 		}
 		values, errs := 0, 0
 		kinds := map[string]int{}
+		var hashes []byte
 		for i := from; i < to; i++ {
 			if (i-from)%32 == 0 {
 				fmt.Fprintf(os.Stderr, "at %s %d\n", target, i)
 			}
 			c := makeHostileCase(target, seed, i)
+			hh := sha256.New()
+			hh.Write(c.Bytes)
+			for _, x := range c.Extra {
+				hh.Write([]byte{0})
+				hh.Write([]byte(x))
+			}
+			hashes = append(hashes, hh.Sum(nil)[:8]...)
 			o := runHostileCase(c, dir)
 			switch o.Outcome {
 			case "value":
@@ -688,6 +697,7 @@ func hostileChildMain() {
 			}
 		}
 		kb, _ := json.Marshal(kinds)
+		fmt.Fprintf(out, "hashes %s\n", base64.StdEncoding.EncodeToString(hashes))
 		fmt.Fprintf(out, "done %s %d %d %d %d %s\n", target, from, to, values, errs, kb)
 		out.Flush()
 	}
@@ -709,7 +719,7 @@ type hostileFinding struct {
 	Extra   []string `json:"extra"`
 }
 
-func runHostileChild(job hostileJob, seed int64) (findings []hostileFinding, values, errs int, kinds map[string]int, crashedAt int, stderrTail string) {
+func runHostileChild(job hostileJob, seed int64) (findings []hostileFinding, values, errs int, kinds map[string]int, crashedAt int, stderrTail string, hashes []byte) {
 	exe, err := os.Executable()
 	if err != nil {
 		panic(err)
@@ -735,6 +745,10 @@ func runHostileChild(job hostileJob, seed int64) (findings []hostileFinding, val
 		sc.Buffer(make([]byte, 1<<20), 1<<28)
 		for sc.Scan() {
 			line := sc.Text()
+			if strings.HasPrefix(line, "hashes ") {
+				hashes, _ = base64.StdEncoding.DecodeString(line[7:])
+				continue
+			}
 			if strings.HasPrefix(line, "done ") {
 				var t string
 				var a, b int
@@ -811,19 +825,23 @@ func genC09(r *Runner) {
 	type agg struct {
 		values, errs, cases int
 		kinds              map[string]int
+		distinct           map[string]bool
 	}
 	aggs := map[string]*agg{}
 	for _, t := range hostileTargets {
-		aggs[t] = &agg{kinds: map[string]int{}}
+		aggs[t] = &agg{kinds: map[string]int{}, distinct: map[string]bool{}}
 	}
 	var mu sync.Mutex
 	var findings []hostileFinding
 	var cases []*Case
 	runJobs(len(jobs), func(ji int) {
 		job := jobs[ji]
-		fs, v, e, kinds, crashedAt, tail := runHostileChild(job, seed)
+		fs, v, e, kinds, crashedAt, tail, hs := runHostileChild(job, seed)
 		mu.Lock()
 		a := aggs[job.target]
+		for k := 0; k+8 <= len(hs); k += 8 {
+			a.distinct[string(hs[k:k+8])] = true
+		}
 		a.values += v
 		a.errs += e
 		a.cases += job.to - job.from
@@ -836,7 +854,7 @@ func genC09(r *Runner) {
 			// isolate: one case per child from the last reported position
 			found := false
 			for i := crashedAt; i < minI(crashedAt+33, job.to) && !found; i++ {
-				_, _, _, _, c2, tail2 := runHostileChild(hostileJob{job.target, i, i + 1}, seed)
+				_, _, _, _, c2, tail2, _ := runHostileChild(hostileJob{job.target, i, i + 1}, seed)
 				if c2 >= 0 {
 					hc := makeHostileCase(job.target, seed, i)
 					mu.Lock()
@@ -857,7 +875,7 @@ func genC09(r *Runner) {
 	// one summary case per target and outcome class, plus one case per finding
 	for _, t := range hostileTargets {
 		a := aggs[t]
-		r.sum.Extra["hostile:"+t] = map[string]any{"cases": a.cases, "returned_a_value": a.values, "returned_an_error": a.errs, "error_kinds": a.kinds}
+		r.sum.Extra["hostile:"+t] = map[string]any{"cases": a.cases, "distinct_inputs": len(a.distinct), "returned_a_value": a.values, "returned_an_error": a.errs, "error_kinds": a.kinds}
 	}
 	for _, t := range hostileTargets {
 		a := aggs[t]
@@ -865,6 +883,14 @@ func genC09(r *Runner) {
 			Impl: map[string]any{"outcome": "terminated", "values": a.values, "errors": a.errs}, Class: t}
 		c.local = true
 		c.weight = a.cases
+		c.distinctWeight = len(a.distinct)
+		// a few of the inputs of this run, written out
+		var smp []any
+		for _, i := range []int{0, a.cases / 3, a.cases - 1} {
+			hc := makeHostileCase(t, seed, i)
+			smp = append(smp, map[string]any{"index": i, "bytes_base64": firstN(base64.StdEncoding.EncodeToString(hc.Bytes), 400), "extra": hc.Extra})
+		}
+		c.In["samples_of_this_stream"] = smp
 		cases = append(cases, c)
 	}
 	for i, f := range findings {
